@@ -498,7 +498,10 @@ def build_lines(r):
             truth.append((eid, f.content)); eid += 1
     if not w.has_truth:
         truth = []
-    req += ["G", str(len(truth))] + [x for e, c in truth for x in (str(e), hx(c))]
+    if getattr(w, "truth_tokens", None):
+        req += w.truth_tokens          # a replayed world carries its ground truth as it was stated
+    else:
+        req += ["G", str(len(truth))] + [x for e, c in truth for x in (str(e), hx(c))]
     req += ["U", str(len(r.solves))] + [outcome for thread, h, segs, outcome in r.solves]
     req += ["V", str(len(r.piece_failed))] + ["1" if x else "0" for x in r.piece_failed]
     pw = sorted({op[2] for op in r.ops if op[4].startswith("part") and op[4] != "part0"})
@@ -518,6 +521,55 @@ def build_lines(r):
     r.request = " ".join(req)
     r.observation = " ".join(obs)
     r.line = r.request + " | " + r.observation
+
+def world_from_line(line, summary=None):
+    """rebuilds the world of a stored `run` request line (replay files): documents, arguments, directories, files with
+    their hard-link groups, faults / crash point, ground truth. What a request line does not carry (relative argument
+    spellings, mount points of two-device worlds, the partial-write length) comes from the summary next to it, or is
+    reported in `w.replay_notes`."""
+    summary = summary or {}
+    t = line.split(" | ")[0].split(" ")
+    unp = lambda tok: () if tok == "." else tuple(b"" if c == "-" else bytes.fromhex(c) for c in tok.split("/"))
+    unh = lambda tok: b"" if tok == "-" else bytes.fromhex(tok)
+    w = World(); w.replay_notes = []
+    k = t.index("H") + 1
+    n = int(t[k]); w.docs = [unh(x) for x in t[k + 1:k + 1 + n]]; k += 1 + n
+    assert t[k] == "E"; eabs = t[k + 1] == "1"; w.export = unp(t[k + 2]); k += 3
+    assert t[k] == "S"; n = int(t[k + 1]); k += 2
+    w.scan = []; sabs = []
+    for _ in range(n):
+        sabs.append(t[k] == "1"); w.scan.append(unp(t[k + 1])); k += 2
+    if not eabs or not all(sabs):
+        w.replay_notes.append("some directory arguments were relative in the original run; replayed as absolute paths")
+    assert t[k] == "R"; w.resize = t[k + 1] == "1"; assert t[k + 2] == "T"; w.threads = int(t[k + 3]); k += 4
+    assert t[k] == "F"; n = int(t[k + 1]); w.dirs = set(unp(x) for x in t[k + 2:k + 2 + n]); k += 2 + n
+    n = int(t[k]); k += 1
+    names = []
+    for _ in range(n):
+        names.append((unp(t[k]), int(t[k + 1]))); k += 2
+    n = int(t[k]); k += 1
+    content = {}
+    for _ in range(n):
+        content[int(t[k])] = unh(t[k + 1]); k += 2
+    count = {}
+    for _, ino in names:
+        count[ino] = count.get(ino, 0) + 1
+    w.files = {p: (content[ino], ino if count[ino] > 1 else None) for p, ino in names}
+    k = t.index("X", k); n = int(t[k + 1]); faults = [int(x) for x in t[k + 2:k + 2 + n]]; k += 2 + n
+    partial = summary.get("partial")
+    if partial:
+        w.partial = tuple(partial); faults = [f for f in faults if f != partial[0]]
+    elif any(tok.startswith("part") for tok in line.split(" ")):
+        w.replay_notes.append("a partial write was injected in the original run; its length is not part of the request line")
+    w.faults = faults
+    assert t[k] == "G"; n = int(t[k + 1]); w.truth_tokens = t[k:k + 2 + 2 * n]
+    w.has_truth = n > 0
+    if "K" in t[k:]:
+        kk = t.index("K", k); w.crash = (int(t[kk + 1]), int(t[kk + 2]))
+    w.meta_faults = summary.get("meta_faults", []) or []
+    w.sched_fs = summary.get("sched_fs")
+    w.tag = summary.get("tag", "replay")
+    return w
 
 # ---------------------------------------------------------------- special-purpose generators
 
